@@ -195,3 +195,51 @@ Check C05_copies_from_closing : forall (PR : PrimeR) rows asg k sigma (Bs Gs : l
                         (sg w sigma 0) (sg w sigma 1) (sg w sigma 2) (sg w sigma 3) beta gamma) (seq 0 n))) ->
   forall p, In p (positions n) -> wv rows asg (sigma p) = wv rows asg p.
 Print Assumptions C05_copies_from_closing.
+
+(* ---- the compiled permutation is the rotation of the witness classes (Composer/Perm.v models
+   Permutation::compute_sigma_permutations); "the copy constraints hold" = wire values constant on every class ---- *)
+From PlonkV Require Import Composer.Perm Composer.PermFacts.
+
+Theorem C05_sigma_rotates_classes : forall classes c,
+  NoDup (concat classes) -> In c classes -> map (sigma_of classes) c = rot c.
+Proof. intros classes c H. exact (sigma_rotates classes H c). Qed.
+Check C05_sigma_rotates_classes : forall classes c,
+  NoDup (concat classes) -> In c classes -> map (sigma_of classes) c = rot c.
+Print Assumptions C05_sigma_rotates_classes.
+
+Theorem C05_copy_constraints_meaning : forall classes (V : Type) (wv : pos -> V),
+  NoDup (concat classes) ->
+  ((forall p, In p (concat classes) -> wv (sigma_of classes p) = wv p) <->
+   (forall c, In c classes -> forall p q, In p c -> In q c -> wv p = wv q)).
+Proof. intros classes V wv H. exact (copy_constraints_meaning classes H wv). Qed.
+Check C05_copy_constraints_meaning : forall classes (V : Type) (wv : pos -> V),
+  NoDup (concat classes) ->
+  ((forall p, In p (concat classes) -> wv (sigma_of classes p) = wv p) <->
+   (forall c, In c classes -> forall p q, In p c -> In q c -> wv p = wv q)).
+Print Assumptions C05_copy_constraints_meaning.
+
+(* end to end for the completeness direction: satisfied rows + wire values constant on every witness class
+   (classes partitioning the 4n positions) => the quotient numerator vanishes on the whole proving domain *)
+Theorem C05_satisfied_and_classes_constant_numerator_zero : forall (PR : PrimeR) rows asg w classes alpha beta gamma kr kl kf kv,
+  let n := nrows rows in
+  let sigma := sigma_of classes in
+  (0 < n)%nat -> sat rows asg ->
+  NoDup (concat classes) -> Permutation (concat classes) (positions n) ->
+  (forall c, In c classes -> forall p q, In p c -> In q c -> wv rows asg p = wv rows asg q) ->
+  (forall j, (j < n)%nat -> pden (col_a rows asg) (col_b rows asg) (col_c rows asg) (col_d rows asg)
+                                 (sg w sigma 0) (sg w sigma 1) (sg w sigma 2) (sg w sigma 3) beta gamma j <> fzero) ->
+  let z := zval w (col_a rows asg) (col_b rows asg) (col_c rows asg) (col_d rows asg)
+                (sg w sigma 0) (sg w sigma 1) (sg w sigma 2) (sg w sigma 3) beta gamma in
+  forall i, (i < n)%nat ->
+    fadd (row_sum (row_gate rows i) (row_wires rows asg i) (row_wires rows asg (next_row rows i)) kr kl kf kv (row_pi rows i))
+         (perm_at w (col_a rows asg) (col_b rows asg) (col_c rows asg) (col_d rows asg)
+                  (sg w sigma 0) (sg w sigma 1) (sg w sigma 2) (sg w sigma 3) alpha beta gamma i (z i) (z (next_row rows i))) = fzero.
+Proof.
+  intros PR rows asg w classes alpha beta gamma kr kl kf kv n sigma Hn Hsat ND Part Hconst Hd.
+  apply (numerator_zero_on_domain rows asg w sigma alpha beta gamma kr kl kf kv Hn Hsat).
+  - apply sigma_permutes_positions; assumption.
+  - intros p Hp. apply (proj2 (copy_constraints_meaning classes ND (wv rows asg)) Hconst).
+    eapply Permutation_in; [apply Permutation_sym; exact Part|exact Hp].
+  - exact Hd.
+Qed.
+Print Assumptions C05_satisfied_and_classes_constant_numerator_zero.
